@@ -184,6 +184,7 @@ pub struct Session {
     pub wid: Option<String>,
     pub workers: Vec<String>,
     pub cfg: Cfg,
+    pub first_cfg: Option<Cfg>,
     pub next_fid: u64,
     pub inst_sent: u64,
     /// per worker: sends addressed to its instance
@@ -226,6 +227,7 @@ impl Session {
             wid: None,
             workers: vec![],
             cfg: Cfg::default(),
+            first_cfg: None,
             next_fid: 0,
             inst_sent: 0,
             sent_of: BTreeMap::new(),
@@ -288,6 +290,9 @@ impl Session {
 
     pub fn open(&mut self, cfg: Cfg) {
         self.cfg = cfg.clone();
+        if self.first_cfg.is_none() {
+            self.first_cfg = Some(cfg.clone());
+        }
         let n_before = gate::worker_count();
         ev(json!({"e": "b", "op": "open", "args": cfg.to_json()}));
         let config = Arc::new(cfg.config(&self.dir));
